@@ -144,14 +144,54 @@ class RowScal:
         return NotImplemented
 
 
+class Blocks:
+    """stack of n boolean matrices (n symbolic): only `*blocks` into block_diag is modelled"""
+    is_array = True
+
+    def __init__(self, n, rows, cols, f):
+        self.n, self.rows, self.cols, self.f = n, rows, cols, f
+
+    def as_star_args(self):
+        return StarBlocks(self)
+
+    def __iter__(self):
+        raise Untranslatable("iteration over a stack of matrices of symbolic length")
+
+
+class StarBlocks:
+    def __init__(self, blocks):
+        self.blocks = blocks
+
+
+ROWBLK = z3.Function("block_of_row", I, I)  # T3 (block_diag): the index of the diagonal block a row / column falls into
+COLBLK = z3.Function("block_of_column", I, I)
+
+
+def block_diag_model(*args):
+    """T3 jax.scipy.linalg.block_diag(*blocks) for equally sized blocks: entry (r, c) is blocks[i][r - i*b0, c - i*b1] when row r and
+    column c fall into the same diagonal block i, and zero (False) otherwise"""
+    if len(args) != 1 or not isinstance(args[0], StarBlocks):
+        raise Untranslatable("block_diag of an explicit list of blocks")
+    b = args[0].blocks
+    return MV(b.n * b.rows, b.n * b.cols, lambda r, c: z3.And(ROWBLK(r) == COLBLK(c), b.f(ROWBLK(r), r - ROWBLK(r) * b.rows, c - COLBLK(c) * b.cols)), "bool")
+
+
+def block_index_facts(b0, b1, n, r, c):
+    """ground instances of the definition of the block index at the generic entry"""
+    return [ROWBLK(r) >= 0, ROWBLK(r) < n, b0 * ROWBLK(r) <= r, r < b0 * ROWBLK(r) + b0, COLBLK(c) >= 0, COLBLK(c) < n, b1 * COLBLK(c) <= c, c < b1 * COLBLK(c) + b1]
+
+
 def mask_lib(it):
     lib = it.lib.overrides
+    lib["jax.scipy.linalg.block_diag"] = block_diag_model
     lib["jax.numpy.arange"] = lambda n: IVec(lift(n), lambda i: i)
     lib["jax.numpy.asarray"] = lambda a, *r, **k: a
     lib["jax.numpy.hstack"] = lambda parts: IVec(parts[0].n + parts[1].n, lambda i: z3.If(i < parts[0].n, parts[0].f(i), parts[1].f(i - parts[0].n)))
     lib["jax.numpy.zeros"] = lambda shape, dtype=None: MV(lift(shape[0]), lift(shape[1]), lambda r, c: z3.BoolVal(False), "bool")
 
     def ones(shape, dtype=None):
+        if isinstance(shape, tuple) and len(shape) == 3:  # a stack of n matrices of ones
+            return Blocks(lift(shape[0]), lift(shape[1]), lift(shape[2]), lambda i, r, c: z3.BoolVal(True))
         if isinstance(shape, tuple) and len(shape) == 2:  # boolean / integer matrix of ones
             return MV(lift(shape[0]), lift(shape[1]), lambda r, c: z3.BoolVal(True), "bool")
         return IVec(lift(shape), lambda i: z3.IntVal(1))
@@ -243,6 +283,31 @@ def block_tril_mask(ctx):
         ctx.oblige(f"C09/block_tril_mask/post/pattern#{i}", m.f(r_, c_) == (rb >= q - k), pre + p.cond + [rb >= 0, rb < n, b0 * rb <= r_, r_ < b0 * rb + b0], props, fn=fnq, replay=dict(kind="c09", vars={}),
                    cases=[("below", rb >= q - k), ("above", rb < q - k)])
         ctx.oblige(f"C09/block_tril_mask/post/shape#{i}", z3.And(m.rows == b0 * n, m.cols == b1 * n), p.cond, props, fn=fnq)
+
+
+@family("masks/block_diag_mask", ["C09"])
+def block_diag_mask(ctx):
+    it = ctx.interp
+    mask_lib(it)
+    props = ["C09"]
+    fnq = "flowjax.masks.block_diag_mask"
+    b0, b1, n = z3.Ints("b0 b1 n_blocks")
+    rb, q = z3.Ints("row_block col_block")
+    fn = it.repo_function(fnq)
+    p = single(it.explore(lambda: fn((SV(b0), SV(b1)), SV(n))), ctx, "C09/block_diag_mask/struct/straight_line", props, fnq)
+    if p is None:
+        return
+    m = p.value
+    ok = isinstance(m, MV)
+    ctx.oblige("C09/block_diag_mask/struct/matrix", ok, [], props, kind="applicability", fn=fnq)
+    if not ok:
+        return
+    pre = [b0 >= 1, b1 >= 1, n >= 1, r_ >= 0, r_ < b0 * n, c_ >= 0, c_ < b1 * n, rb >= 0, rb < n, b0 * rb <= r_, r_ < b0 * rb + b0, q >= 0, q < n, b1 * q <= c_, c_ < b1 * q + b1]
+    # documented pattern: entry (r, c) is set iff its row block index equals its column block index
+    ctx.oblige("C09/block_diag_mask/post/pattern", m.f(r_, c_) == (rb == q), pre + p.cond + block_index_facts(b0, b1, n, r_, c_), props, fn=fnq, replay=dict(kind="c09", vars={}),
+               cuts=[("row_block_unique", ROWBLK(r_) == rb), ("col_block_unique", COLBLK(c_) == q)])
+    ctx.oblige("C09/block_diag_mask/post/shape", z3.And(m.rows == b0 * n, m.cols == b1 * n), p.cond, props, fn=fnq, replay=dict(kind="c09", vars={}))
+    ctx.control("C09/block_diag_mask/control/lower_triangular_blocks", m.f(r_, c_) == (rb >= q), pre + p.cond + block_index_facts(b0, b1, n, r_, c_), props, fn=fnq)
 
 
 # --------------------------------------------------------------------------------------
